@@ -604,6 +604,133 @@ theorem c19_summary_line_cells (net : Net) :
         ++ toString (total summaryTable net .pops) ++ " populations " := by
   simp [renderLine, List.foldl]
 
+
+/-! ## every accessor of every class (class × accessor → theorem; the table in `notes/C19.md` lists the pairs) -/
+
+/-- the attribute read by a segment-id accessor of a connection class -/
+def Cls.segField : Cls → Meth → Option String
+  | .Connection, .get_pre_segment_id | .ConnectionWD, .get_pre_segment_id => some "pre_segment_id"
+  | .Connection, .get_post_segment_id | .ConnectionWD, .get_post_segment_id => some "post_segment_id"
+  | .ElectricalConnection, .get_pre_segment_id | .ElectricalConnectionInstance, .get_pre_segment_id
+  | .ElectricalConnectionInstanceW, .get_pre_segment_id | .ContinuousConnection, .get_pre_segment_id
+  | .ContinuousConnectionInstance, .get_pre_segment_id | .ContinuousConnectionInstanceW, .get_pre_segment_id =>
+    some "pre_segment"
+  | .ElectricalConnection, .get_post_segment_id | .ElectricalConnectionInstance, .get_post_segment_id
+  | .ElectricalConnectionInstanceW, .get_post_segment_id | .ContinuousConnection, .get_post_segment_id
+  | .ContinuousConnectionInstance, .get_post_segment_id | .ContinuousConnectionInstanceW, .get_post_segment_id =>
+    some "post_segment"
+  | _, _ => none
+
+/-- the attribute read by a fraction accessor of a connection class -/
+def Cls.fracField : Cls → Meth → Option String
+  | .Connection, .get_pre_fraction_along | .ConnectionWD, .get_pre_fraction_along
+  | .ElectricalConnection, .get_pre_fraction_along | .ElectricalConnectionInstance, .get_pre_fraction_along
+  | .ElectricalConnectionInstanceW, .get_pre_fraction_along | .ContinuousConnection, .get_pre_fraction_along
+  | .ContinuousConnectionInstance, .get_pre_fraction_along | .ContinuousConnectionInstanceW, .get_pre_fraction_along =>
+    some "pre_fraction_along"
+  | .Connection, .get_post_fraction_along | .ConnectionWD, .get_post_fraction_along
+  | .ElectricalConnection, .get_post_fraction_along | .ElectricalConnectionInstance, .get_post_fraction_along
+  | .ElectricalConnectionInstanceW, .get_post_fraction_along | .ContinuousConnection, .get_post_fraction_along
+  | .ContinuousConnectionInstance, .get_post_fraction_along | .ContinuousConnectionInstanceW, .get_post_fraction_along =>
+    some "post_fraction_along"
+  | _, _ => none
+
+/-- the cell-index accessors of the two classes that hold plain indices (not paths): `int(float(<attr>))` -/
+def Cls.indexField : Cls → Meth → Option String
+  | .ElectricalConnection, .get_pre_cell_id | .ContinuousConnection, .get_pre_cell_id => some "pre_cell"
+  | .ElectricalConnection, .get_post_cell_id | .ContinuousConnection, .get_post_cell_id => some "post_cell"
+  | _, _ => none
+
+def Cls.isInput : Cls → Bool
+  | .Input | .InputW => true
+  | _ => false
+
+def Cls.hasWeight : Cls → Bool
+  | .ElectricalConnectionInstanceW | .ContinuousConnectionInstanceW | .InputW => true
+  | _ => false
+
+/-- **segment-id accessors of all eight connection classes**: the stored id -/
+theorem c19_segment_accessors (fs : FloatSem F) (c : Cls) (m : Meth) (fld : String)
+    (hfld : c.segField m = some fld) (self : Obj F) (n : Nat) (hs : self fld = some (.int n)) :
+    ∃ f, c.accessor (F := F) m = some f ∧ f fs self = .ok (.int n) := by
+  cases c <;> cases m <;> simp only [Cls.segField, reduceCtorEq] at hfld <;> cases hfld <;>
+    exact ⟨_, rfl, c19_conn_segment_id fs self _ n hs⟩
+
+/-- **fraction accessors of all eight connection classes**: the stored fraction (including `0.0`) -/
+theorem c19_fraction_accessors (fs : FloatSem F) (c : Cls) (m : Meth) (fld : String)
+    (hfld : c.fracField m = some fld) (self : Obj F) (x : F) (hs : self fld = some (.num x)) :
+    ∃ f, c.accessor (F := F) m = some f ∧ f fs self = .ok (.num x) := by
+  cases c <;> cases m <;> simp only [Cls.fracField, reduceCtorEq] at hfld <;> cases hfld <;>
+    exact ⟨_, rfl, c19_conn_fraction_along fs self _ x hs⟩
+
+/-- **the defaults of all eight connection classes, through the class table**: a freshly constructed object
+    whose segment / fraction argument was not passed answers `0` / `float("0.5")` -/
+theorem c19_conn_default_accessors (fs : FloatSem F) (c : Cls) (ms mf : Meth) (seg frac : String)
+    (hseg : c.segField ms = some seg) (hfrac : c.fracField mf = some frac)
+    (given : String → Option (Val F)) (o : Obj F) (hc : construct fs c.fields given = .ok o)
+    (h1 : given seg = none) (h2 : given frac = none) (y : F) (hy : fs.parse ['0', '.', '5'] = some y) :
+    (∃ f, c.accessor (F := F) ms = some f ∧ f fs o = .ok (.int 0)) ∧
+    (∃ f, c.accessor (F := F) mf = some f ∧ f fs o = .ok (.num y)) := by
+  have hsm : (⟨seg, .toInt, .str ['0']⟩ : CtorField) ∈ c.fields := by
+    cases c <;> cases ms <;> simp only [Cls.segField, reduceCtorEq] at hseg <;> cases hseg <;> decide
+  have hfm : (⟨frac, .toFloat, .str ['0', '.', '5']⟩ : CtorField) ∈ c.fields := by
+    cases c <;> cases mf <;> simp only [Cls.fracField, reduceCtorEq] at hfrac <;> cases hfrac <;> decide
+  have hs := (c19_ctor_int_field fs c given o hc seg _ hsm).2 h1 rfl
+  have hf := (c19_ctor_float_field fs c given o hc frac _ hfm).2.1 _ y h2 rfl hy
+  exact ⟨c19_segment_accessors fs c ms seg hseg o 0 hs, c19_fraction_accessors fs c mf frac hfrac o y hf⟩
+
+/-- **`Input` / `InputW`: segment id and fraction**, stored value and default exactly when unset -/
+theorem c19_input_accessors (fs : FloatSem F) (c : Cls) (hc : c.isInput = true) (self : Obj F) :
+    (∃ f, c.accessor (F := F) .get_segment_id = some f ∧
+      ∀ v, self "segment_id" = some v →
+        (∀ n : Nat, v = .int n → f fs self = .ok (.int n)) ∧ (v = .none → f fs self = .ok (.int 0))) ∧
+    (∃ f, c.accessor (F := F) .get_fraction_along = some f ∧
+      ∀ v, self "fraction_along" = some v →
+        (∀ x : F, v = .num x → f fs self = .ok (.num x)) ∧ (v = .none → f fs self = .ok (.num fs.half))) := by
+  cases c <;> simp only [Cls.isInput, Bool.false_eq_true] at hc <;>
+    exact ⟨⟨_, rfl, fun v hv => c19_input_segment_id fs self v hv⟩,
+           ⟨_, rfl, fun v hv => c19_input_fraction_along fs self v hv⟩⟩
+
+/-- **`get_weight` of the three weighted classes that define it**: the stored weight, `1.0` exactly when unset -/
+theorem c19_weight_accessors (fs : FloatSem F) (c : Cls) (hc : c.hasWeight = true) (self : Obj F) :
+    ∃ f, c.accessor (F := F) .get_weight = some f ∧
+      ∀ v, self "weight" = some v →
+        (∀ x : F, v = .num x → f fs self = .ok (.num x)) ∧ (v = .none → f fs self = .ok (.num fs.one)) := by
+  cases c <;> simp only [Cls.hasWeight, Bool.false_eq_true] at hc <;>
+    exact ⟨_, rfl, fun v hv => c19_get_weight fs self v hv⟩
+
+/-- **`ExplicitInput`**: the two default-only accessors, through the class table -/
+theorem c19_explicit_accessors (fs : FloatSem F) (self : Obj F) :
+    (∃ f, Cls.accessor (F := F) .ExplicitInput .get_segment_id = some f ∧ f fs self = .ok (.int 0)) ∧
+    (∃ f, Cls.accessor (F := F) .ExplicitInput .get_fraction_along = some f ∧ f fs self = .ok (.num fs.half)) :=
+  ⟨⟨_, rfl, rfl⟩, ⟨_, rfl, rfl⟩⟩
+
+/-- **`ConnectionWD.get_delay_in_ms`** is the accessor the delay theorems are about (`c19_delay_ms`, `c19_delay_s`,
+    `c19_delay_all_spellings`, `Props/C19Rx: c19_delay_value, c19_delay_schema`) -/
+theorem c19_delay_accessor : Cls.accessor (F := F) .ConnectionWD .get_delay_in_ms = some getDelayInMs := rfl
+
+/-- **`ElectricalConnection` / `ContinuousConnection`** hold plain indices: `int(float(s))` of a digit string is
+    its value whenever `float` reads the digits exactly (`parse ds = ofInt (decVal ds)`, `trunc ∘ ofInt = id`) -/
+theorem c19_index_accessors (fs : FloatSem F) (c : Cls) (m : Meth) (fld : String)
+    (hfld : c.indexField m = some fld) (self : Obj F) (ds : List Char)
+    (hs : self fld = some (.str ds))
+    (hparse : fs.parse ds = some (fs.ofInt (decVal ds))) (htr : fs.trunc (fs.ofInt (decVal ds)) = some (decVal ds)) :
+    ∃ f, c.accessor (F := F) m = some f ∧ f fs self = .ok (.int (decVal ds)) := by
+  cases c <;> cases m <;> simp only [Cls.indexField, reduceCtorEq] at hfld <;> cases hfld <;>
+    exact ⟨_, rfl, by simp [cellIdOf, attr_some self _ _ hs, pCall1, getCellIdIndex, pFloat, pInt, hparse, htr]⟩
+
+/-- **the table is complete**: every (class, accessor) pair the source defines (`accessor_domain` in
+    `Props/C19Gen.lean` ties `Cls.accessor` to the source) belongs to exactly one of the families above -/
+theorem c19_accessor_table_complete (c : Cls) (m : Meth) (h : (c.accessor (F := F) m).isSome = true) :
+    (c.cellField m).isSome = true ∨ (c.indexField m).isSome = true ∨ (c.segField m).isSome = true ∨
+    (c.fracField m).isSome = true ∨ (c.isInput = true ∧ (m = .get_segment_id ∨ m = .get_fraction_along)) ∨
+    (c.hasWeight = true ∧ m = .get_weight) ∨ (c = .ExplicitInput ∧ (m = .get_segment_id ∨ m = .get_fraction_along)) ∨
+    (c = .ConnectionWD ∧ m = .get_delay_in_ms) ∨ (c = .Population ∧ m = .get_size) := by
+  cases c <;> cases m <;> first
+    | decide
+    | (exfalso; simp [Cls.accessor, oldFormatAccessor, newFormatAccessor, inputAccessor] at h)
+
+example : Cls.segField .ContinuousConnectionInstanceW .get_post_segment_id = some "post_segment" := rfl
 /-! ## the hypotheses above are satisfiable (non-vacuity) -/
 
 /-- an object with one attribute -/
